@@ -386,6 +386,20 @@ Section Machine.
         end
     end.
 
+  (* ---------------- ToEntry as a read operation between the runs *)
+  (* A node that has been converted answers from the entry cache.  One that has not (module loaded after the last
+     Process, ClearEntryCache, or a Process that stopped in process()) is converted on the spot, against the bindings
+     of the moment: the types it meets are resolved and memoised (noteResolved), the submodules it merges are
+     recorded in mergedSubmodule.  What the read ANSWERS is the cached result (abstraction); what it LEAVES BEHIND is
+     modelled: the next Process must not see it. *)
+  Definition pst_of (st : state) : pst :=
+    {| p_includes := includes st; p_binds := binds st; p_idict := idict st; p_tmemo := tmemo st |}.
+  Definition read_entries (st : state) : state :=
+    {| reg := reg st; mods := mods st; tdict := tdict st; includes := includes st;
+       merged := merged st ++ merged_of (pst_of st); ecache := ecache st;
+       idict := idict st; binds := binds st;
+       tmemo := p_tmemo (resolve_types (reg st) (mods st) (pst_of st)); byns := byns st |}.
+
   (* ---------------- histories *)
   Inductive op := Load (t : text) | Proc | QNs (ns : str) | QTree.
   Inductive observation := OLoad (ok : bool) | OProc (o : obs) | ONs (r : nsres) | OTree (o : option obs).
@@ -395,7 +409,7 @@ Section Machine.
     | Load t => let '(st', ok) := load fx st t in (st', OLoad ok)
     | Proc => let '(st', r) := Process fx st in (st', OProc r)
     | QNs ns => let '(st', r) := QueryNS st ns in (st', ONs r)
-    | QTree => (st, OTree (ecache st))             (* ToEntry of an already converted node: the cached entry *)
+    | QTree => (read_entries st, OTree (ecache st))
     end.
 
   Fixpoint run (fx : fixes) (st : state) (ops : list op) : state * list observation :=
@@ -414,7 +428,7 @@ Arguments ecache {obs}. Arguments idict {obs}. Arguments binds {obs}. Arguments 
 Arguments filed_values : clear implicits.
 Arguments accept {obs}. Arguments load_items {obs}. Arguments load_items_d40 {obs}. Arguments load {obs}.
 Arguments p_init {obs}. Arguments view_of {obs}. Arguments Process {obs}. Arguments QueryNS {obs}.
-Arguments step {obs}. Arguments run {obs}.
+Arguments step {obs}. Arguments run {obs}. Arguments read_entries {obs}.
 Arguments OLoad {obs}. Arguments OProc {obs}. Arguments ONs {obs}. Arguments OTree {obs}.
 
 (* the instance the driver runs: the observation is the view itself, map order = order of acceptance *)
